@@ -1,7 +1,7 @@
 (* Props/C05.v — property C05: streaming mode agrees with whole-circuit mode.
    Only statements closed by [exact], each followed by Print Assumptions. *)
 From Coq Require Import NArith ZArith List Bool FMapPositive.
-From Mpc Require Import Gen.Consts Base.Label Circuit.Circuit Circuit.Garble Circuit.GarbleProof Lang.Gc Lang.GcProof Proto.Stream Proto.StreamProof Proto.StreamGcProof Proto.StreamSimProof.
+From Mpc Require Import Gen.Consts Base.Label Circuit.Circuit Circuit.Garble Circuit.GarbleProof Lang.Gc Lang.GcProof Lang.Hashtab Lang.HashtabProof Proto.Stream Proto.StreamProof Proto.StreamGcProof Proto.StreamSimProof.
 Import ListNotations.
 Local Open Scope nat_scope.
 
@@ -182,6 +182,25 @@ Theorem C05_stream_sim :
     no_premature_reuse p g = true /\ stream_eval p g xy = ssa_eval p g xy.
 Proof. exact stream_sim_gc. Qed.
 Print Assumptions C05_stream_sim.
+
+(* THE ALLOCATOR'S VALUE TABLE.  Lang/Gc.v keeps WireAllocator's table of
+   allocated values as a finite map ([whash], an association list).  The Go code
+   keeps it as 10240 hash buckets of chained headers, where lookup moves a hit
+   at chain position 3 or deeper to the front and remove unlinks the first
+   match (Lang/Hashtab.v).  Refinement: for EVERY hash function — collisions
+   arbitrary — every value type and every sequence of operations (Allocated =
+   lookup; AssignedIDs/AssignedWires/Wires = lookup and insert at the head when
+   absent; assignment to the fields of a found header; GCWires = remove),
+   starting from the empty table: the chained table answers every operation
+   exactly as the finite map does, and afterwards, for every key, the chain of
+   the key's bucket holds exactly what the finite map holds (in particular gc
+   removes exactly the named value and no other). *)
+Theorem C05_walloc_hashtab_refines :
+  forall (V : Type) (hash : N -> nat) (ops : list (hop V)),
+    fst (chain_run V hash ops []) = fst (map_run V ops []) /\
+    forall k, lookup k (bucket V (snd (chain_run V hash ops [])) (hash k)) = lookup k (snd (map_run V ops [])).
+Proof. exact hashtab_refines_map. Qed.
+Print Assumptions C05_walloc_hashtab_refines.
 
 (* sendArgument / receiveArgument: for every argument description (name, type
    string, size, nested members to any depth within the fuel) whose lengths
